@@ -306,3 +306,83 @@ def tofloat(x):
 
 def tofloats(v):
     return [tofloat(x) for x in v]
+
+
+# ---- fraction-free integer twins (same results up to row scaling; used when every coordinate is an int) ----------
+
+from math import gcd as _gcd
+
+
+def _primitive(row):
+    g = 0
+    for x in row:
+        g = _gcd(g, x)
+    if g > 1:
+        row = [x // g for x in row]
+    return row
+
+
+def irref(m):
+    """Integer reduced row echelon form up to row scaling: rows primitive, pivots positive. Returns (rows, pivots)."""
+    m = [list(r) for r in m]
+    rows = len(m)
+    cols = len(m[0]) if rows else 0
+    piv = []
+    r = 0
+    for c in range(cols):
+        p = None
+        for i in range(r, rows):
+            if m[i][c]:
+                p = i
+                break
+        if p is None:
+            continue
+        m[r], m[p] = m[p], m[r]
+        pr = m[r]
+        pv = pr[c]
+        for i in range(rows):
+            if i != r and m[i][c]:
+                f = m[i][c]
+                m[i] = _primitive([pv * a - f * b for a, b in zip(m[i], pr)])
+        piv.append(c)
+        r += 1
+        if r == rows:
+            break
+    out = []
+    for i, c in enumerate(piv):
+        row = _primitive(m[i])
+        if row[c] < 0:
+            row = [-x for x in row]
+        out.append(row)
+    return out, piv
+
+
+def irank(m):
+    return len(irref(m)[1]) if m else 0
+
+
+def inull(m, ncols=None):
+    """Integer basis of the kernel of an integer matrix."""
+    if not m:
+        return [[int(i == j) for j in range(ncols)] for i in range(ncols)]
+    R, piv = irref(m)
+    n = len(m[0])
+    free = [c for c in range(n) if c not in piv]
+    basis = []
+    for fc in free:
+        L = 1
+        for r, pc in enumerate(piv):
+            if R[r][fc]:
+                a = R[r][pc]
+                L = L * a // _gcd(L, a)
+        v = [0] * n
+        v[fc] = L
+        for r, pc in enumerate(piv):
+            if R[r][fc]:
+                v[pc] = -R[r][fc] * (L // R[r][pc])
+        basis.append(_primitive(v))
+    return basis
+
+
+def all_int(vs):
+    return all(type(x) is int for v in vs for x in v)
